@@ -66,6 +66,8 @@ def gene_digest(g):
 def cov_digest(c):
     parts = []
     for pos in sorted(c._coverage):
+        if not c._coverage[pos]:
+            parts.append((pos, None, 0, 0))      # a position entry without observations is part of the evidence too (depth statistics)
         for op in sorted(c._coverage[pos]):
             lst = c._coverage[pos][op]
             parts.append((pos, op, len(lst), hash(tuple(sorted(lst)))))
@@ -271,6 +273,7 @@ def arg_menu(ctx):
     else:
         menu += [(None,), (None, None), (None, None)]
     menu += [("12#1", e2pos), ("13", e2pos), (e2pos,)]       # a fused allele at a position only one of the two genes retains
+    menu += [(Mutation(17, "A>C"),), (17,)]                  # a position without any observation
     return menu
 
 
@@ -285,7 +288,7 @@ def arg_indices(cls_name, name, member):
     req = len([p for p in params if p.default is inspect._empty and p.kind in (p.POSITIONAL_ONLY, p.POSITIONAL_OR_KEYWORD)])
     var = any(p.kind == p.VAR_POSITIONAL for p in params)
     mx = len([p for p in params if p.kind in (p.POSITIONAL_ONLY, p.POSITIONAL_OR_KEYWORD)])
-    lens = [0, 1, 1, 2, 1, 1, 2, 2, 1, 1, 1, 1, 1, 1, 1, 2, 2, 2, 2, 1]
+    lens = [0, 1, 1, 2, 1, 1, 2, 2, 1, 1, 1, 1, 1, 1, 1, 2, 2, 2, 2, 1, 1, 1]
     idx = [i for i, n in enumerate(lens) if (req <= n <= mx) or (var and n >= max(req, 1))]
     keep = idx[:6] + [i for i in idx[6:] if i >= 17]
     return keep if keep else [0]
